@@ -22,7 +22,7 @@ Priors == {<<"eq", v, t>> : v \in {X, Y},
                             t \in T0 \cup {TCons(Y, Nil), TCons(Num(1), X), TCons(X, Y)}}
 
 UPairs == {<<"eq", u, v>> : u \in TL, v \in TL}
-UGoalsAt(n) == IF WithPrior /\ n = 1 THEN Priors ELSE UPairs
+UGoalsAfter(p) == IF WithPrior /\ Len(p) = 0 THEN Priors ELSE UPairs
 
 GAtoms == {Num(1), Sym2, <<"sym", "s:fa">>, <<"sym", "s:fb">>}
 G0 == GAtoms \cup {Nil}
@@ -40,7 +40,7 @@ TC == T0 \cup {Pair(a, b) : a \in T0, b \in T0} \cup {Box1(a) : a \in T0}
          \cup {Pair(TCons(a, Nil), b) : a \in T0, b \in T0}
          \cup {Tuple(a, b) : a \in {X, Num(1)}, b \in T0}
 CPairs == {<<"eq", u, v>> : u \in TC, v \in TC}
-CGoalsAt(n) == IF WithPrior /\ n = 1 THEN Priors ELSE CPairs
+CGoalsAfter(p) == IF WithPrior /\ Len(p) = 0 THEN Priors ELSE CPairs
 CAtoms == {Num(1), <<"sym", "s:fa">>, <<"sym", "s:fb">>}
 CG0 == CAtoms \cup {Nil}
 CGU == CG0 \cup {Pair(a, b) : a \in CG0, b \in CG0} \cup {Box1(a) : a \in CG0}
